@@ -18,25 +18,25 @@ package satisfaction_levels
 //@ pred decValid(m CoefficientManager, c real, mn real, mx real) = !(c <= 0.0 || c >= 1.0 || mn <= 0.0 || mn > 1.0 || mx <= 0.0 || mx > 1.0)
 
 //@ func (*IncreasingCoefficientManager).Validate
-//@   property C14 C20 C12 C13
+//@   property C14 C20 C12 C13 C01 C09
 //@   refines satisfaction_levels.CoefficientManager.Validate with validFor=incValid
 //@   panics_iff [range] params.Coefficient <= 0.0 || params.Coefficient >= 1.0 || params.MinValue < 0.0 || params.MinValue > 1.0 || params.MaxValue < 0.0 || params.MaxValue > 1.0
 //@ func (*IncreasingCoefficientManager).InitialValue
-//@   property C14 C20 C12 C13
+//@   property C14 C20 C12 C13 C01 C09
 //@   ensures [initial] result == params.MinValue
 //@ func (*IncreasingCoefficientManager).HasNext
-//@   property C14 C20 C12 C13
+//@   property C14 C20 C12 C13 C01 C09
 //@   ensures [hasnext] result <==> params.currentValue < params.MaxValue
 
 //@ func (*DecreasingCoefficientManager).Validate
-//@   property C14 C20 C12 C13
+//@   property C14 C20 C12 C13 C01 C09
 //@   refines satisfaction_levels.CoefficientManager.Validate with validFor=decValid
 //@   panics_iff [range] params.Coefficient <= 0.0 || params.Coefficient >= 1.0 || params.MinValue <= 0.0 || params.MinValue > 1.0 || params.MaxValue <= 0.0 || params.MaxValue > 1.0
 //@ func (*DecreasingCoefficientManager).InitialValue
-//@   property C14 C20 C12 C13
+//@   property C14 C20 C12 C13 C01 C09
 //@   ensures [initial] result == params.MaxValue
 //@ func (*DecreasingCoefficientManager).HasNext
-//@   property C14 C20 C12 C13
+//@   property C14 C20 C12 C13 C01 C09
 //@   ensures [hasnext] result <==> params.currentValue > params.MinValue
 
 //@ func var:IdealIncreasingMulCoefficientSatisfaction#1
@@ -79,7 +79,7 @@ package satisfaction_levels
 //@ spec initval(m CoefficientManager, mn real, mx real) real
 
 //@ func (*IdealCoefficientSatisfactionLevels).Next
-//@   property C14 C12 C13
+//@   property C14 C12 C13 C01 C09 C20
 //@   requires len(s.criteriaValuesRanges) >= len(s.criteria)
 //@   requires forall i int, j int :: 0 <= i && i < j && j < len(s.criteria) ==> s.criteria[i].Id != s.criteria[j].Id
 //@   assigns s
@@ -97,16 +97,16 @@ package satisfaction_levels
 //@   loop 1 invariant [only] forall q string :: q in weights ==> exists k int :: 0 <= k && k < iter && s.criteria[k].Id == q
 
 //@ func (*ThresholdSatisfactionLevels).HasNext
-//@   property C12 C13 C14 C07
+//@   property C12 C13 C14 C07 C01 C09 C20
 //@   ensures [hasnext] result <==> t.currentIndex + 1 < len(t.Thresholds)
 //@ func (*ThresholdSatisfactionLevels).Next
-//@   property C12 C13 C14 C07
+//@   property C12 C13 C14 C07 C01 C09 C20
 //@   requires 0 <= t.currentIndex + 1 && t.currentIndex + 1 < len(t.Thresholds)
 //@   assigns t
 //@   ensures [advance] t.currentIndex == old(t.currentIndex) + 1 && t.Thresholds == old(t.Thresholds)
 //@   ensures [level] result == old(t.Thresholds[t.currentIndex + 1])
 //@ func (*ThresholdSatisfactionLevels).Initialize
-//@   property C12 C13 C14 C20 C07
+//@   property C12 C13 C14 C20 C07 C01 C09
 //@   assigns t
 //@   panics_iff [missing_threshold] exists i int, c int :: 0 <= i && i < len(t.Thresholds) && 0 <= c && c < len(dmp.Criteria) && !(dmp.Criteria[c].Id in t.Thresholds[i])
 //@   ensures [reset] t.currentIndex == -1 && t.Thresholds == old(t.Thresholds)
@@ -125,7 +125,7 @@ package satisfaction_levels
 //@      c.ValuesRange != nil ? r == *c.ValuesRange : observedRange(r, dmp.ConsideredAlternatives, dmp.NotConsideredAlternatives, c.Id)
 
 //@ func (*IdealCoefficientSatisfactionLevels).Initialize
-//@   property C14 C12 C13
+//@   property C14 C12 C13 C01 C09 C20
 //@   assigns s
 //@   ensures [criteria] s.criteria == dmp.Criteria && len(s.criteriaValuesRanges) == len(dmp.Criteria)
 //@   ensures [ranges_declared] forall k int :: 0 <= k && k < len(dmp.Criteria) && dmp.Criteria[k].ValuesRange != nil ==> s.criteriaValuesRanges[k] == *dmp.Criteria[k].ValuesRange
@@ -144,24 +144,24 @@ package satisfaction_levels
 
 // ---- no state shared between requests (C09): every request decodes its level parameters into a new object
 //@ func (*ThresholdSatisfactionLevelsSource).BlankParams
-//@   property C09 C14 C12 C13 C07
+//@   property C09 C14 C12 C13 C07 C01 C15 C18 C19 C20
 //@   nopanic
 //@   ensures [new_object_each_time] typeis(result, *ThresholdSatisfactionLevels) && fresh(result.(*ThresholdSatisfactionLevels))
 //@ func (*IdealCoefficientSatisfactionLevelsSource).BlankParams
-//@   property C09 C14 C12 C13
+//@   property C09 C14 C12 C13 C01 C07 C15 C18 C19 C20
 //@   nopanic
 //@   ensures [new_object_each_time] typeis(result, *IdealCoefficientSatisfactionLevels) && fresh(result.(*IdealCoefficientSatisfactionLevels))
 //@             && result.(*IdealCoefficientSatisfactionLevels).manager == s.coefficientManager
 
 // ---- the explicit threshold list under criteria-changing biases (C07, C14, C18, C15)
 //@ func fetchParams
-//@   property C14 C07 C12 C13 C15 C18
+//@   property C14 C07 C12 C13 C15 C18 C01 C09 C19 C20
 //@   panics_iff [wrong_type] !typeis(params, *ThresholdSatisfactionLevels)
 //@   ensures [the_list] result == params.(*ThresholdSatisfactionLevels)
 
 // a new criterion gets, per level, a fraction in [0,1) of the reference criterion's threshold of that level ...
 //@ func assignNewThresholds
-//@   property C14 C18 C12 C13 C07
+//@   property C14 C18 C12 C13 C07 C01 C09 C19 C20
 //@   fnparam generator ensures 0.0 <= result && result < 1.0
 //@   ensures [fraction_of_the_reference_threshold_per_level] fresh(result) && len(result) == len(params.Thresholds) && forall k int :: 0 <= k && k < len(params.Thresholds) ==>
 //@             model.fractionOf(result[k], params.Thresholds[k][referenceCriterion.Id])
@@ -170,21 +170,21 @@ package satisfaction_levels
 
 // ... sorted in the direction of the series (ascending for aspect elimination, descending for satisfaction) ...
 //@ func sortThresholds
-//@   property C14 C18 C12 C13 C07
+//@   property C14 C18 C12 C13 C07 C01 C09 C19 C20
 //@   assigns thresholds
 //@   ensures [in_series_direction] forall i int, j int :: 0 <= i && i < j && j < len(thresholds) ==> (ascending ? thresholds[i] <= thresholds[j] : thresholds[i] >= thresholds[j])
 //@   ensures [same_values] forall k int :: 0 <= k && k < len(thresholds) ==> exists j int :: 0 <= j && j < len(thresholds) && thresholds[k] == old(thresholds[j])
 
 // ... and attached level by level under the new criterion's id
 //@ func mapThresholdsToEntries
-//@   property C14 C18 C12 C13 C07
+//@   property C14 C18 C12 C13 C07 C01 C09 C19 C20
 //@   ensures [one_single_key_map_per_level] fresh(result) && len(result) == len(thresholdsValues) && forall k int :: 0 <= k && k < len(thresholdsValues) ==>
 //@             criterion.Id in result[k] && result[k][criterion.Id] == thresholdsValues[k] && forall q string :: q in result[k] ==> q == criterion.Id
 //@   loop 1 invariant [ctx] fresh(thresholds) && len(thresholds) == len(thresholdsValues)
 //@   loop 1 invariant [so_far] forall k int :: 0 <= k && k < iter ==> criterion.Id in thresholds[k] && thresholds[k][criterion.Id] == thresholdsValues[k] && forall q string :: q in thresholds[k] ==> q == criterion.Id
 
 //@ func (*ThresholdSatisfactionLevels).preserveLeftThresholds
-//@   property C14 C15 C07 C12 C13
+//@   property C14 C15 C07 C12 C13 C01 C09 C20
 //@   ensures [every_level_restricted_to_the_left_criteria] fresh(result) && len(result) == len(t.Thresholds) && forall i int, k int :: 0 <= i && i < len(t.Thresholds) && 0 <= k && k < len(*leftCriteria) ==>
 //@             (*leftCriteria)[k].Id in result[i] && result[i][(*leftCriteria)[k].Id] == t.Thresholds[i][(*leftCriteria)[k].Id]
 //@   loop 1 invariant [ctx] fresh(thresholds) && len(thresholds) == len(t.Thresholds)
@@ -192,7 +192,7 @@ package satisfaction_levels
 //@             (*leftCriteria)[k].Id in thresholds[i] && thresholds[i][(*leftCriteria)[k].Id] == t.Thresholds[i][(*leftCriteria)[k].Id]
 
 //@ func (*ThresholdSatisfactionLevels).merge
-//@   property C14 C18 C07 C12 C13
+//@   property C14 C18 C07 C12 C13 C01 C09 C19 C20
 //@   ensures [every_level_extended] fresh(result) && len(result) == len(t.Thresholds) && forall i int, q string :: 0 <= i && i < len(t.Thresholds) ==>
 //@             (q in t.Thresholds[i] ==> q in result[i] && result[i][q] == t.Thresholds[i][q]) && (q in add.Thresholds[i] ==> q in result[i] && result[i][q] == add.Thresholds[i][q])
 //@   loop 1 invariant [ctx] fresh(newThresholds) && len(newThresholds) == len(t.Thresholds)
@@ -200,17 +200,17 @@ package satisfaction_levels
 //@             (q in t.Thresholds[i] ==> q in newThresholds[i] && newThresholds[i][q] == t.Thresholds[i][q]) && (q in add.Thresholds[i] ==> q in newThresholds[i] && newThresholds[i][q] == add.Thresholds[i][q])
 
 //@ func (*ThresholdSatisfactionLevelsSource).OnCriteriaRemoved
-//@   property C14 C15 C07 C12 C13
+//@   property C14 C15 C07 C12 C13 C01 C09 C20
 //@   ensures [position_kept] typeis(result, *ThresholdSatisfactionLevels) && fresh(result.(*ThresholdSatisfactionLevels))
 //@             && result.(*ThresholdSatisfactionLevels).currentIndex == params.(*ThresholdSatisfactionLevels).currentIndex
 //@             && len(result.(*ThresholdSatisfactionLevels).Thresholds) == len(params.(*ThresholdSatisfactionLevels).Thresholds)
 //@ func (*ThresholdSatisfactionLevelsSource).Merge
-//@   property C14 C18 C07 C12 C13
+//@   property C14 C18 C07 C12 C13 C01 C09 C19 C20
 //@   ensures [position_kept] typeis(result, *ThresholdSatisfactionLevels) && fresh(result.(*ThresholdSatisfactionLevels))
 //@             && result.(*ThresholdSatisfactionLevels).currentIndex == params.(*ThresholdSatisfactionLevels).currentIndex
 //@             && len(result.(*ThresholdSatisfactionLevels).Thresholds) == len(params.(*ThresholdSatisfactionLevels).Thresholds)
 //@ func (*ThresholdSatisfactionLevelsSource).OnCriterionAdded
-//@   property C14 C18 C07 C12 C13
+//@   property C14 C18 C07 C12 C13 C01 C09 C19 C20
 //@   fnparam generator ensures 0.0 <= result && result < 1.0
 //@   ensures [one_threshold_per_level_in_series_direction] typeis(result, ThresholdsUpdate) && len(result.(ThresholdsUpdate).Thresholds) == len(params.(*ThresholdSatisfactionLevels).Thresholds)
 //@             && (forall k int :: 0 <= k && k < len(result.(ThresholdsUpdate).Thresholds) ==> criterion.Id in result.(ThresholdsUpdate).Thresholds[k])
@@ -249,42 +249,42 @@ package satisfaction_levels
 
 // ---- registered names (what a request must say to select this object; what error messages list)
 //@ func (*ThresholdSatisfactionLevelsSource).Identifier
-//@   property C07 C14 C20
+//@   property C07 C14 C20 C01 C03 C04 C05 C06 C08 C09 C11 C12 C13 C15 C16 C17 C18 C19
 //@   nopanic
 //@   ensures [name] result == "thresholds"
 
 // ---- the generated series, remaining pieces (C14, C12, C13)
 // the manager applies the update rule it was configured with (the four rules are the closures proved above)
 //@ func (*IncreasingCoefficientManager).UpdateValue
-//@   property C14 C12 C20
+//@   property C14 C12 C20 C01 C09 C13
 //@   fnparam .updateCoefficient pure
 //@   ensures [configured_rule] result == apply(i.updateCoefficient, current, coefficient)
 //@ func (*DecreasingCoefficientManager).UpdateValue
-//@   property C14 C13 C20
+//@   property C14 C13 C20 C01 C09 C12
 //@   fnparam .updateCoefficient pure
 //@   ensures [configured_rule] result == apply(d.updateCoefficient, current, coefficient)
 // a generated series has no per-criterion content: adding, removing and merging criteria leave its parameters as they are
 //@ func (*IdealCoefficientSatisfactionLevelsSource).OnCriterionAdded
-//@   property C14 C07 C18
+//@   property C14 C07 C18 C01 C09 C19 C20
 //@   nopanic
 //@   ensures [nothing_to_add] isnil(result)
 //@ func (*IdealCoefficientSatisfactionLevelsSource).OnCriteriaRemoved
-//@   property C14 C07 C15
+//@   property C14 C07 C15 C01 C09 C20
 //@   nopanic
 //@   ensures [unchanged] result == params
 //@ func (*IdealCoefficientSatisfactionLevelsSource).Merge
-//@   property C14 C07 C18
+//@   property C14 C07 C18 C01 C09 C19 C20
 //@   nopanic
 //@   ensures [unchanged] result == params
 
 // ---- the update listener of the level source a request names (used by the heuristics' bias listeners)
 //@ func (*SatisfactionLevelsUpdateListeners).Fetch
-//@   property C07 C12 C13 C20 C15 C18
+//@   property C07 C12 C13 C20 C15 C18 C01 C09 C19
 //@   panics_iff [unknown_source] !(listenerName in sl.Listeners)
 //@   ensures [registered_under_that_name] result != nil && fresh(result) && *result == sl.Listeners[listenerName]
 //@ func (*SatisfactionLevelsUpdateListeners).Get
-//@   property C07 C12 C13 C20 C15 C18
+//@   property C07 C12 C13 C20 C15 C18 C01 C09 C19
 //@   ensures [listener_of_the_named_source] listenerName in sl.Listeners && result0 == sl.Listeners[listenerName]
 //@ func (*IdealCoefficientSatisfactionLevels).HasNext
-//@   property C14 C12 C13
+//@   property C14 C12 C13 C01 C09 C20
 //@   ensures [the_managers_answer] true
